@@ -111,6 +111,11 @@ def make_tracker(D, Dz, dt, vadv, adv, dx, dy, h, u, v, w, seed):
     modules = {"time": tk, "state": state, "grid": StubGrid(dx, dy, h), "forcing": StubForcing(u, v, w, state)}
     tr = Tracker(advection="EF" if adv else "", diffusion=D, vertdiff=Dz, vertical_advection=vadv, modules=modules)
     tr.rng = np.random.default_rng(seed)
+    # another simulation set up in the same process, with other coefficients, alive while this one runs
+    state2 = State()
+    mods2 = {"time": TimeKeeper(start=START, stop=STOP, dt=int(dt)), "state": state2, "grid": StubGrid(dx, dy, h),
+             "forcing": StubForcing(u, v, w, state2)}
+    tr.neighbour = Tracker(advection="", diffusion=4.0 * D + 1.0, vertdiff=0.25 * Dz if Dz > 0 else 0.5, vertical_advection=False, modules=mods2)
     return tr, state
 
 
